@@ -117,6 +117,21 @@ class ImplicitFuncComp(ImplicitComponent):
                 raise RuntimeError(f"{self.msginfo}: failed jit compile of solve_nonlinear "
                                    f"function: {err}")
 
+    @property
+    def _mode(self):
+        """
+        Return the current system mode.
+
+        Returns
+        -------
+        str
+            The current system mode, 'fwd' or 'rev'.
+        """
+        if self.options['derivs_method'] == 'jax':
+            # partials (and their coloring) are computed in the cheaper direction
+            return self.best_partial_deriv_direction()
+        return super()._mode
+
     def setup(self):
         """
         Define our inputs and outputs.
